@@ -84,6 +84,9 @@ func handleZADD(params internal.HandlerFuncParams) ([]byte, error) {
 		options := params.Command[2:membersStartIndex]
 		for _, option := range options {
 			if slices.Contains([]string{"xx", "nx"}, strings.ToLower(option)) {
+				if up, ok := updatePolicy.(string); ok && !strings.EqualFold(up, option) {
+					return nil, errors.New("NX and XX flags are mutually exclusive")
+				}
 				updatePolicy = option
 				// If option is "NX" and comparison is not nil, return an error
 				if strings.EqualFold(option, "NX") && comparison != nil {
@@ -92,6 +95,9 @@ func handleZADD(params internal.HandlerFuncParams) ([]byte, error) {
 				continue
 			}
 			if slices.Contains([]string{"gt", "lt"}, strings.ToLower(option)) {
+				if comp, ok := comparison.(string); ok && !strings.EqualFold(comp, option) {
+					return nil, errors.New("GT and LT flags are mutually exclusive")
+				}
 				comparison = option
 				// If updatePolicy is "NX", return an error
 				up, _ := updatePolicy.(string)
